@@ -1341,6 +1341,8 @@ KNOWN_PHRASES = (KNOWN_TAIL, KNOWN_DURATION)
 
 
 def run(ctx):
+    if getattr(ctx.driver, "private", 0) is None and hasattr(ctx.driver, "snapshot") and ctx.model_available:
+        ctx.driver.snapshot()          # before the (long) implementation phase: another build may replace the binary
     comps = _components(ctx)
     notes = []
     results = evaluate(comps, notes)
